@@ -105,3 +105,55 @@ def run(prog, prefix="mpq_", rule="R-NORMS"):
                 vals.add(v if v is not None else "param")
     res.counts["algorithm_arguments_at_call_sites"] = sorted(map(str, vals))
     return res
+
+
+def run_handover(prog, prefix="mpq_", rule="R-FOREIGNNORMS", floor=1):
+    """a basis record that moves from one problem object to another leaves its edge norms behind.  rownorms / colnorms are the
+    steepest-edge weights of the rows / columns of the basis inverse of the problem they were computed on; opt_work solves a scaled copy
+    first and hands the copy's basis record to the problem itself.  Every pointer move `X->basis = Y->basis` between two different
+    problem variables must be dominated by the release of Y->basis->rownorms and Y->basis->colnorms (the weights of the other - scaled -
+    matrix make the weight recurrence of the exact dual steepest-edge pricing leave the positive range, and the floor it is clamped to
+    is 0 in the rational instantiation: the next pricing pass divides by it)."""
+    from ..core import walk, dominators
+    res = RuleResult(rule, "a move of the basis record between two problem objects is dominated by the release of both edge-norm arrays of the "
+                           "record that moves")
+    n = 0
+    for f in sorted(prog.funcs.values(), key=lambda x: x.key):
+        if f.live is None or "_dbl." in f.unit or "_mpf." in f.unit or not f.unit.startswith("qsopt_ex/"):
+            continue
+        moves = []
+        for b, i, e in f.elements():
+            if e[0] != "A" or e[1][1] != "=":
+                continue
+            l, r = strip(e[1][2]), strip(e[1][3])
+            if isinstance(l, list) and l and l[0] == "m" and l[2].endswith("qsdata::basis") and isinstance(r, list) and r and r[0] == "m" and \
+                    r[2].endswith("qsdata::basis") and is_var(l[1]) and is_var(r[1]) and strip(l[1])[2] != strip(r[1])[2]:
+                moves.append((b["id"], i, e, strip(r[1])[2]))
+        if not moves:
+            continue
+        dom, succ = dominators(prog, f)
+        for (bid, i, e, src) in moves:
+            n += 1
+            res.obligations += 1
+            res.nontrivial += 1
+            released = set()
+            for b2, i2, e2 in f.elements():
+                if not ((b2["id"] in dom.get(bid, ()) and b2["id"] != bid) or (b2["id"] == bid and i2 < i)):
+                    continue
+                # the release macro ends with  X = 0  /  the free call takes the array
+                cand = None
+                if e2[0] == "A" and e2[1][1] == "=" and const_of(e2[1][3]) == 0:
+                    cand = e2[1][2]
+                for fld in ("rownorms", "colnorms"):
+                    if cand is not None and show(cand).replace(" ", "") == "%s->basis->%s" % (src, fld):
+                        released.add(fld)
+            if released >= {"rownorms", "colnorms"}:
+                res.sample({"site": "%s %s: %s" % (short_loc(e[2]), f.name, show(e[1])[:50]), "verdict": "both norm arrays of the moving record are released first"}, limit=4)
+            else:
+                missing = sorted({"rownorms", "colnorms"} - released)
+                res.violations.append(Violation(rule, "%s|basis of %s handed over with its %s" % (f.name.replace(prefix, ""), src, " and ".join(missing)), f.name, short_loc(e[2]),
+                                                "%s moves the basis record of %s into another problem object together with %s: these are the edge weights of %s's (scaled) "
+                                                "matrix, and the next solve loads them as the weights of its own rows" % (show(e[1])[:60], src, " and ".join(missing), src)))
+    res.counts["basis_moves_between_problem_objects"] = n
+    res.floor("moves of a basis record between two problem objects", n, floor)
+    return res
